@@ -111,6 +111,9 @@ package keys_and_cert
 //@     b2, x2 := k2.Bytes()
 //@     assert(x1 == nil && x2 == nil && seqeq(b1, b2))
 //@   }
+//@   if e2 == nil && certificate.CertType(&k2.KeyCertificate.Certificate) == 5 && key_certificate.SigType(k2.KeyCertificate) == 7 && key_certificate.CryptoType(k2.KeyCertificate) == 4 {
+//@     assert(e1 == nil)
+//@   }
 //@ }
 
 //@ option C19_ElgEd25519ReaderAgrees nocontract *
@@ -123,5 +126,8 @@ package keys_and_cert
 //@     b1, x1 := k1.Bytes()
 //@     b2, x2 := k2.Bytes()
 //@     assert(x1 == nil && x2 == nil && seqeq(b1, b2))
+//@   }
+//@   if e2 == nil && certificate.CertType(&k2.KeyCertificate.Certificate) == 5 && key_certificate.SigType(k2.KeyCertificate) == 7 && key_certificate.CryptoType(k2.KeyCertificate) == 0 {
+//@     assert(e1 == nil)
 //@   }
 //@ }
